@@ -52,6 +52,20 @@ func hasProp(ps []string, p string) bool {
 }
 
 func main() {
+	if len(os.Args) >= 3 && os.Args[1] == "replay-template" {
+		// gocv replay-template <obligation-name> [repo]: run the replay template registered for an obligation
+		repo := "/repo"
+		if len(os.Args) > 3 {
+			repo = os.Args[3]
+		}
+		ok, info := tryReplay(&Engine{repoDir: repo}, "", &logical{Name: os.Args[2]}, 0)
+		out, _ := json.MarshalIndent(info, "", " ")
+		fmt.Println(strings.ReplaceAll(string(out), "\\n", "\n"))
+		if ok {
+			os.Exit(1)
+		}
+		os.Exit(0)
+	}
 	if len(os.Args) < 3 || os.Args[1] != "check" {
 		usage()
 	}
@@ -140,6 +154,21 @@ func main() {
 		}
 	}
 	tGen := time.Since(t0) - tLoad
+	if *verbose {
+		for _, u := range units {
+			var specs []*UnitSpec
+			if u.spec != nil {
+				specs = append(specs, u.spec)
+			}
+			for _, sp := range specs {
+				for _, c := range sp.OnCall {
+					if _, ok := eng.oncallHit.Load(c); !ok {
+						fmt.Fprintf(os.Stderr, "note: %s: oncall pattern %q matched no call site (%s:%d)\n", u.name, c.Arg, shortFile(c.File), c.Line)
+					}
+				}
+			}
+		}
+	}
 
 	// collect obligations of this property
 	var obls []*Obligation
